@@ -18,7 +18,7 @@ use ironcalc_base::{Model, UserModel};
 use serde_json::{json, Value};
 use std::collections::{BTreeSet, HashMap};
 
-pub const WATCHDOG_S: f64 = 20.0;
+pub const WATCHDOG_S: f64 = 60.0;
 
 /// Σ_f: operators, brackets, punctuation the lexer treats specially, reference / number letters,
 /// a two-byte character, an astral-plane character and NUL.
@@ -548,11 +548,18 @@ fn locales() -> Vec<String> {
     v
 }
 
-fn run_format(cx: &mut Ctx, code: &str, stage: &mut dyn FnMut(&str)) {
+fn run_format(cx: &mut Ctx, code: &str, tower: bool, stage: &mut dyn FnMut(&str)) {
     stage("format_number");
-    for loc in locales() {
+    for (li, loc) in locales().into_iter().enumerate() {
+        // towers: two locales and four numbers (the formatter is super-linear in the length of the code)
+        if tower && li >= 2 {
+            break;
+        }
         let locale = get_locale(&loc).expect("locale");
-        for x in NUMBERS {
+        for (xi, x) in NUMBERS.into_iter().enumerate() {
+            if tower && !matches!(xi, 0 | 2 | 4 | 8) {
+                continue;
+            }
             let what = format!("format code {} value={:?} locale={}", show(code), x, loc);
             let r = cx.guard("format_number", &what, || {
                 let f = format_number(x, code, locale);
@@ -597,8 +604,19 @@ impl Job for C11Job {
         if k < self.towers.len() {
             let (c, d, n, e) = self.towers[k];
             let sigma: &[&str] = if ENTRIES[e] == "format" { &SIGMA_N } else { &SIGMA_F };
-            return json!({"family": "tower", "c": sigma[c], "d": if d == usize::MAX { "" } else { sigma[d] },
-                "n": n, "entry": ENTRIES[e]});
+            let (cs, dstr) = (sigma[c], if d == usize::MAX { "" } else { sigma[d] });
+            // class of the repeated construct, used to narrow abort / hang signatures
+            let both = format!("{}{}", cs, dstr);
+            let hint = if both.contains('(') {
+                "paren-nesting".to_string()
+            } else if both.contains('{') {
+                "brace-nesting".to_string()
+            } else if both.chars().any(|ch| "+-*/^&=<>".contains(ch)) {
+                "operator-chain".to_string()
+            } else {
+                format!("tower({})", both.escape_debug())
+            };
+            return json!({"family": "tower", "c": cs, "d": dstr, "n": n, "entry": ENTRIES[e], "hint": hint});
         }
         k -= self.towers.len();
         if k < self.n_short_n {
@@ -638,7 +656,7 @@ impl Job for C11Job {
                     "cycle" => run_cycle(&mut cx, &s, 2, stage),
                     "model" => run_model(&mut cx, &s, stage),
                     "usermodel" => run_usermodel(&mut cx, &s, stage),
-                    "format" => run_format(&mut cx, &s, stage),
+                    "format" => run_format(&mut cx, &s, true, stage),
                     _ => {}
                 }
                 // a tower is non-trivial when it is long enough to matter
@@ -646,7 +664,7 @@ impl Job for C11Job {
             }
             "format-short" | "format-edit" => {
                 let code = case["code"].as_str().unwrap_or("").to_string();
-                run_format(&mut cx, &code, stage);
+                run_format(&mut cx, &code, false, stage);
             }
             _ => {}
         }
